@@ -28,7 +28,6 @@ import (
 	"errors"
 	"fmt"
 	"io"
-	"io/fs"
 	"math/rand"
 	"os"
 	"path/filepath"
@@ -69,6 +68,9 @@ type Format interface {
 	NumBucketsFor(declared uint) uint32
 	// BucketOf is the package's own key -> bucket function.
 	BucketOf(numBuckets uint32, key []byte) uint
+	// EntryHash is the package's own per-bucket hash (24 bits) of a key in a hash domain; used only to
+	// search keys with extreme / colliding hashes, never by the oracle.
+	EntryHash(domain uint32, key []byte) uint64
 	// FixValue turns raw bytes (len = valueSize) into a value that is legal for the configuration, in
 	// the representation Lookup returns.
 	FixValue(valueSize, variant int, raw []byte) []byte
@@ -116,6 +118,14 @@ type Case struct {
 }
 
 type pair struct{ k, v []byte }
+
+// 12-byte keys whose EntryHash64(domain 0) & 0xffffff is 0x000000, 0x000001, 0x7fffff, 0x800000, 0xfffffe,
+// 0xffffff with the xxhash-based entry hash all three formats share (found once by exhaustive search; if the
+// hash function of the tree differs they are ordinary keys and the run-time search below still applies).
+var precomputedExtremeKeys = []string{
+	"c82001000000000063303421", "c1868d030000000063303421", "b5881a000000000063303421",
+	"52231e000000000063303421", "188911000000000063303421", "5067bc010000000063303421",
+}
 
 var mixedLens = []int{0, 1, 2, 3, 4, 7, 8, 9, 15, 16, 17, 31, 32, 33, 63, 64, 65, 127, 128, 129, 255, 256, 257, 1000}
 
@@ -235,6 +245,53 @@ func genKeys(f Format, c Case) [][]byte {
 			if nb == 0 || f.BucketOf(nb, k) == uint(c.Bucket) {
 				add(k)
 			}
+		}
+	case "hashextreme":
+		// keys whose per-bucket hash in domain 0 is at the ends of the 24-bit range (first / last slot of
+		// the sorted table), found with the package's own hash; KeyLen = search budget in millions
+		// one key per extreme hash value: two keys with the same hash would collide in domain 0 and push the
+		// miner to another domain, where these keys are ordinary
+		haveHash := map[uint64]bool{}
+		for _, hx := range precomputedExtremeKeys {
+			if pk, err := hex.DecodeString(hx); err == nil && !haveHash[f.EntryHash(0, pk)] {
+				haveHash[f.EntryHash(0, pk)] = true
+				add(pk)
+			}
+		}
+		trials := c.KeyLen * 1000000
+		k := make([]byte, 12)
+		binary.LittleEndian.PutUint32(k[8:], uint32(c.KeySeed))
+		for i := 0; i < trials && len(keys) < 12; i++ {
+			binary.LittleEndian.PutUint64(k, uint64(i))
+			if h := f.EntryHash(0, k); (h <= 2 || h >= 0xfffffd) && !haveHash[h] {
+				haveHash[h] = true
+				add(append([]byte(nil), k...))
+			}
+		}
+		for len(keys) < c.N && tries < budget {
+			tries++
+			add(randBytes(rng, 12))
+		}
+	case "collide0":
+		// pairs of keys with the same 24-bit hash in domain 0 (the miner must move to another domain
+		// even for a tiny bucket), found by birthday search with the package's own hash
+		byHash := map[uint64][]byte{}
+		pairs := 0
+		for i := 0; i < 200000 && pairs < 3 && len(keys)+2 <= c.N; i++ {
+			k := randBytes(rng, 12)
+			h := f.EntryHash(0, k)
+			if o, ok := byHash[h]; ok && !bytes.Equal(o, k) {
+				add(o)
+				add(k)
+				delete(byHash, h)
+				pairs++
+				continue
+			}
+			byHash[h] = k
+		}
+		for len(keys) < c.N && tries < budget {
+			tries++
+			add(randBytes(rng, 12))
 		}
 	default:
 		panic("c04eng: unknown keygen " + c.KeyGen)
@@ -483,14 +540,15 @@ func build(f Format, c Case, ins []pair, dir, tag string) (res buildResult) {
 	return
 }
 
-// environmental reports whether an error comes from the file system rather than from the builder's logic.
+// environmental reports whether an error is a resource problem of the machine (disk full, descriptor
+// limit ...) rather than a decision of the builder's logic; only those are excused as inconclusive.
 func environmental(err error) bool {
-	var pe *fs.PathError
 	var en syscall.Errno
-	if errors.As(err, &en) {
-		return true
+	if !errors.As(err, &en) {
+		return false
 	}
-	if errors.As(err, &pe) {
+	switch en {
+	case syscall.ENOSPC, syscall.EMFILE, syscall.ENFILE, syscall.EIO, syscall.EDQUOT, syscall.ENOMEM, syscall.EROFS, syscall.EACCES:
 		return true
 	}
 	return false
@@ -656,6 +714,30 @@ func RunCase(f Format, c Case, rec *ev.Recorder, st *stats, dir string) (violate
 	defer os.RemoveAll(cdir)
 	ins, model := materialise(f, c)
 	rec.Count("inserts", len(ins))
+	switch c.KeyGen {
+	case "hashextreme":
+		for _, p := range model {
+			h := f.EntryHash(0, p.k)
+			if h <= 2 || h >= 0xfffffd {
+				rec.Count("reach_keys_with_extreme_hash", 1)
+			}
+			if h == 0 {
+				rec.Count("reach_keys_with_hash_000000", 1)
+			}
+			if h == 0xffffff {
+				rec.Count("reach_keys_with_hash_ffffff", 1)
+			}
+		}
+	case "collide0":
+		seen := map[uint64]bool{}
+		for _, p := range model {
+			h := f.EntryHash(0, p.k)
+			if seen[h] {
+				rec.Count("reach_key_pairs_colliding_in_domain0", 1)
+			}
+			seen[h] = true
+		}
+	}
 
 	// ---- classification of the input by the statement
 	cond := "legal"
@@ -1058,6 +1140,27 @@ func Cases(f Format, seed int64, thorough bool) []Case {
 		c := base(i, "one-bucket", a.n)
 		c.KeyGen, c.KeyLen, c.Declared, c.Bucket = "bucket", []int{8, 32, 64}[i%3], uint(a.declared), a.bucket
 		c.Twice = a.n <= 10001
+		cs = append(cs, c)
+	}
+
+	// F2. extreme and colliding per-bucket hashes; bucket tables with more than 255 entries
+	for i, N := range []int{9, 20, 300} {
+		c := base(i, "hash-extreme", N)
+		c.KeyGen, c.KeyLen = "hashextreme", pick(8, 120)
+		cs = append(cs, c)
+	}
+	for i, N := range []int{2, 3, 6, 40} {
+		c := base(i+1, "hash-collide", N)
+		c.KeyGen = "collide0"
+		cs = append(cs, c)
+	}
+	for i, a := range []adv{{2560001, -1, 1500}, {2560001, 256, 3}, {2560001, 255, 2}, {700000, 64, 40}, {2570000, 0, 5}} {
+		c := base(i+2, "many-buckets", a.n)
+		c.Declared = uint(a.declared)
+		if a.bucket >= 0 {
+			c.KeyGen, c.KeyLen, c.Bucket = "bucket", 16, a.bucket
+		}
+		c.Twice = i == 1
 		cs = append(cs, c)
 	}
 
